@@ -21,7 +21,7 @@ func init() {
 		Real:       append([]string{"x/gov v1 proposals", "genesis export and InitChain of a fresh app", "restart over the surviving disk after a crash"}, distReal...),
 		Stub:       append([]string{"bank keeper of the distributor wrapped by the guarded hook for injected failures"}, distStub...),
 		Assumes:    []string{"magnitudes inside the property's bounds: amounts < 1e36, periods and steps >= 1 s, multipliers <= 1 (updates outside are generated only with a non-governance authority)", "sources never name staking pools, distribution, cfeminter or cfevesting accounts", "a panic outside the repository's block logic is a harness error (exit 2), not a violation"},
-		FaultKinds: []string{"F-clock", "F-gov", "F-bank-inj", "F-bank-nat", "F-export", "F-crash"},
+		FaultKinds: []string{"F-clock", "F-gov", "F-bank-inj", "F-bank-nat", "F-export", "F-crash", "F-simulate + F-rollback (every third run)"},
 	})
 }
 
@@ -41,7 +41,9 @@ func c10RunSeed(seed uint64, tier string) *Outcome {
 		tr := &kernel.Trace{Profile: "C10", Seed: seed, Spec: *spec}
 		return c10Exec(tr, distSource(r.Fork(11), spec, cfg, opts))
 	}
-	tr, src, _, err := buildEverything(seed, "C10", c10Opts)
+	o10 := c10Opts
+	o10.Sim = seed%3 == 1
+	tr, src, _, err := buildEverything(seed, "C10", o10)
 	if err != nil {
 		return &Outcome{InfraErr: err}
 	}
